@@ -20,7 +20,7 @@ from harness import codecs
 SERIALIZERS = ["serpent", "marshal", "json", "msgpack"]
 LEAVES = ["none", "bool", "int", "bigint", "str", "float", "inf", "nan", "bytes", "complex", "uuid", "decimal", "date", "datetime"]
 CORE_LEAVES = ("none", "bool", "int", "bigint", "str", "float", "inf", "nan")
-WRAPS = ["bare", "list", "tuple", "dict", "list-in-dict", "set", "frozenset"]
+WRAPS = ["bare", "list", "tuple", "dict", "list-in-dict", "set", "frozenset", "mixed-set"]
 CORE_WRAPS = ("bare", "list", "dict", "list-in-dict")
 
 
@@ -69,6 +69,8 @@ def wrap(kind, leaf):
         return {"k": [leaf, {"deep": leaf}]}
     if kind == "set":
         return {leaf}
+    if kind == "mixed-set":
+        return {leaf, "x", 7}         # members without a common ordering
     return frozenset([leaf])
 
 
@@ -121,7 +123,7 @@ def h_roundtrip(S, B):
     ser = serializers.serializers[sname]
     lk = S.choice("leaf", B["LEAVES"])
     wk = S.choice("wrap", B["WRAPS"])
-    if wk in ("set", "frozenset") and lk in ("int", "bigint", "str", "bool", "nan", "none"):
+    if wk in ("set", "frozenset", "mixed-set") and lk in ("int", "bigint", "str", "bool", "nan", "none"):
         S.assume(False, "sets hold concrete hashable leaves in this harness")
     leaf = make_leaf(S, lk)
     v = wrap(wk, leaf)
@@ -157,6 +159,10 @@ def h_roundtrip(S, B):
         S.cover("unsupported:" + sname)
         # a serializer may refuse a type it does not support, but never a lossless-core value
         S.check("lossless-core-is-supported-by-every-serializer", not (lk in CORE_LEAVES and wk in CORE_WRAPS))
+        if sname in ("json", "msgpack") and wk in ("set", "frozenset", "mixed-set"):
+            # a set is delivered as the list of its members: it is refused only if one of its members is
+            members_ok = [attempt(lambda: ser.loads(ser.dumps(m)))[0] == "value" for m in v]
+            S.check("json-msgpack-refuse-a-set-only-for-an-unsupported-member", not all(members_ok))
         S.observe("outcome", (r_args[0], r_res))
         return
     v_res = r_res[1]
@@ -173,9 +179,14 @@ def h_roundtrip(S, B):
     # documented specifics
     if sname == "msgpack" and lk in ("bigint", "complex", "date", "datetime") and wk == "bare":
         S.check("msgpack-restores-its-extension-types-in-results", same(v_res, v))
+    if sname in ("json", "msgpack") and wk in ("set", "frozenset", "mixed-set"):
+        # documented: these serializers deliver a set as a list of its (individually mapped) members
+        members = [ser.loads(ser.dumps(m)) for m in v]
+        S.check("json-msgpack-deliver-a-set-as-the-list-of-its-members",
+                isinstance(v_res, (list, tuple)) and sorted([repr(m) for m in v_res]) == sorted([repr(m) for m in members]))
     if sname in ("json", "msgpack") and wk == "tuple":
         S.check("tuples-arrive-as-lists", isinstance(v_res, list))
-    if sname == "marshal" and wk in ("tuple", "set", "frozenset") and lk in CORE_LEAVES:
+    if sname == "marshal" and wk in ("tuple", "set", "frozenset", "mixed-set") and lk in CORE_LEAVES:
         S.check("marshal-keeps-tuples-and-sets", same(v_res, v))
     if sname == "serpent" and lk == "bytes" and wk == "bare":
         S.check("serpent-bytes-arrive-as-base64-dict", isinstance(v_res, dict) and v_res.get("encoding") == "base64")
@@ -196,10 +207,11 @@ STUBS = codecs.stubs()
 
 SPECS = [
     Spec("roundtrip", h_roundtrip,
-         {"quick": {"SERIALIZERS": SERIALIZERS, "LEAVES": LEAVES, "WRAPS": ["bare", "list", "tuple", "dict", "set"]},
+         {"quick": {"SERIALIZERS": SERIALIZERS, "LEAVES": LEAVES, "WRAPS": ["bare", "list", "tuple", "dict", "set", "mixed-set"]},
           "thorough": {"SERIALIZERS": SERIALIZERS, "LEAVES": LEAVES, "WRAPS": WRAPS}},
          covers=["ser:serpent", "ser:marshal", "ser:json", "ser:msgpack", "core", "check:lossless-core-arrives-unchanged",
-                 "check:same-mapping-for-arguments-and-results", "check:mapping-is-idempotent"],
+                 "check:same-mapping-for-arguments-and-results", "check:mapping-is-idempotent",
+                 "check:json-msgpack-deliver-a-set-as-the-list-of-its-members", "check:batch-call-form-serialises-like-a-plain-call"],
          native_patch=env.native_env, reset=_reset,
          desc="a value (14 leaf kinds: symbolic unbounded int incl. beyond 64 bit, symbolic bool, symbolic string of any code points, floats incl. inf/nan, bytes, complex, uuid, decimal, date, datetime) bare or inside list/tuple/dict/nested/set/frozenset, sent as positional argument, keyword argument and result through each serializer's real dumpsCall/loadsCall/dumps/loads with the codec libraries modelled at their API"),
 ]
